@@ -5,6 +5,7 @@ import (
 	"fmt"
 	"sort"
 	"strings"
+	"sync"
 	"testing"
 	"time"
 
@@ -16,7 +17,7 @@ import (
 
 func TestVerif_C09(t *testing.T) {
 	rep := vk.NewReport(t, "C09", "exploration")
-	rep.Rule = "NewMergeHandler over 2-5 (one session in twelve: 6-25, sometimes 60-74) scripted children that answer every EVENT with one OK and every COUNT with one COUNT after seeded delays (out of order across different ids, in submission order for the same id); verdicts, reasons (with and without machine-readable prefixes; in one session in five oddly shaped: a bare prefix, leading/trailing white space, empty), counts and the optional approximate member are a seeded function of (child, id, occurrence) and every reason names (child, occurrence), so a reply identifies the submission it answers; the client pipelines 1-8 requests over tiny id alphabets (the same event id / COUNT id several times in flight, CLOSE messages and REQs (which every child refuses with CLOSED) for the same ids in between); offline: #OK(id) = #EVENT(id), accepted OKs = all-accept submissions, each rejecting OK begins with the full reason of a rejecting child of a distinct submission that is the lowest-index or the earliest-replying rejecter; #COUNT(id) = #requests and the multiset of values = per-request maxima; non-trivial = a session with a repeated id in flight or mixed verdicts; distinct = distinct (children, request shape, verdict pattern)"
+	rep.Rule = "NewMergeHandler over 2-5 (one session in twelve: 6-25, sometimes 60-74) scripted children that answer every EVENT with one OK and every COUNT with one COUNT after seeded delays (out of order across different ids, in submission order for the same id); verdicts, reasons (with and without machine-readable prefixes; in one session in five oddly shaped: a bare prefix, leading/trailing white space, empty), counts and the optional approximate member are a seeded function of (child, id, occurrence) and every reason names (child, occurrence), so a reply identifies the submission it answers; the client pipelines 1-8 requests over tiny id alphabets (the same event id / COUNT id several times in flight, CLOSE messages and REQs (which every child refuses with CLOSED) for the same ids in between); 2-5 clients at once on one merged handler whose children reject everything with 2-5 kB reasons naming child and event (every reply is the reply of its own submission); offline: #OK(id) = #EVENT(id), accepted OKs = all-accept submissions, each rejecting OK begins with the full reason of a rejecting child of a distinct submission that is the lowest-index or the earliest-replying rejecter; #COUNT(id) = #requests and the multiset of values = per-request maxima; non-trivial = a session with a repeated id in flight or mixed verdicts; distinct = distinct (children, request shape, verdict pattern)"
 	defer rep.Finish()
 	pc := &pointCtl{sleep: true, only: "merge."}
 	mocrelay.SetVerifPoint(pc.fn)
@@ -115,7 +116,10 @@ func TestVerif_C09(t *testing.T) {
 			}
 			return x % 50
 		}
-		h := mocrelay.NewMergeHandler(mkChildren(w, nch)...)
+		h, nestedMerge := mMerge(r, mkChildren(w, nch))
+		if nestedMerge {
+			rep.Count("handlers_with_a_nested_merge", 1)
+		}
 		nev := 1 + r.IntN(3)
 		if mode == 4 {
 			nev = 8
@@ -459,6 +463,73 @@ func TestVerif_C09(t *testing.T) {
 		}
 	})
 	pc.report(rep)
+	// several clients on one merged handler at the same time, every EVENT rejected by every child
+	// with a long reason that names the child and the event: each merged OK must be the OK of its
+	// own submission - beginning with child 0's reason for this very event
+	nShared := vk.N(6, 60)
+	vk.ParallelW(3, nShared, func(i int) {
+		r := vk.RNG("C09/shared", i)
+		nch := 2 + r.IntN(3)
+		reason := func(c int, content string) string {
+			return fmt.Sprintf("%schild %d refuses %s %s", prefixes[(c+len(content))%len(prefixes)], c, content, strings.Repeat(string(rune('a'+c)), 2000+37*len(content)%3000))
+		}
+		children := make([]mocrelay.Handler, nch)
+		for c := range children {
+			c := c
+			children[c] = mocrelay.HandlerFunc(func(ctx context.Context, send chan<- mocrelay.ServerMsg, recv <-chan mocrelay.ClientMsg) error {
+				for {
+					select {
+					case <-ctx.Done():
+						return ctx.Err()
+					case m, ok := <-recv:
+						if !ok {
+							return mocrelay.ErrRecvClosed
+						}
+						if em, is := m.(*mocrelay.ClientEventMsg); is {
+							pre, text := splitPrefix(reason(c, em.Event.Content))
+							select {
+							case send <- mocrelay.NewServerOKMsg(em.Event.ID, false, pre, text):
+							case <-ctx.Done():
+								return ctx.Err()
+							}
+						}
+					}
+				}
+			})
+		}
+		h := mocrelay.NewMergeHandler(children...)
+		nClients, nEv := 2+r.IntN(4), 40+r.IntN(60)
+		var wg sync.WaitGroup
+		for cl := 0; cl < nClients; cl++ {
+			wg.Add(1)
+			go func(cl int) {
+				defer wg.Done()
+				s := vk.StartSession(ctx, h, 0)
+				defer s.Stop()
+				for k := 0; k < nEv; k++ {
+					content := fmt.Sprintf("shared-%d-client-%d-event-%d", i, cl, k)
+					ev := vk.Seal(&mocrelay.Event{Kind: 1, Pubkey: vk.FakePub(990 + cl), CreatedAt: int64(1000 + k), Content: content})
+					if !s.Put(&mocrelay.ClientEventMsg{Event: ev}) {
+						rep.Inconclusive("C09: shared-handler scenario: an EVENT was not taken")
+						return
+					}
+					m, ok := s.Get()
+					okm, is := m.(*mocrelay.ServerOKMsg)
+					rep.Eval(1)
+					if !ok || !is || okm.EventID != ev.ID || okm.Accepted || !strings.HasPrefix(okm.Message(), reason(0, content)) {
+						got := vk.JSON(m)
+						rep.Violation("ok/concurrent-sessions/not-its-own-reasons", fmt.Sprintf("%d clients on one merged handler: the reply to %s does not begin with child 0's reason for that event", nClients, content),
+							map[string]any{"clients": nClients, "children": nch, "reply_head": got[:min(len(got), 200)], "expected_head": reason(0, content)[:80], "reply_length": len(got)})
+						return
+					}
+				}
+				rep.Count("clients_sharing_a_merged_handler", 1)
+				rep.Nontrivial(fmt.Sprintf("shared/%d/%d/%d", i, nch, cl))
+			}(cl)
+		}
+		wg.Wait()
+	})
+	rep.Require(rep.Counter("clients_sharing_a_merged_handler") >= int64(nShared*2), "clients sharing a merged handler")
 	rep.Require(rep.Counter("sessions") >= int64(n*9/10), "sessions")
 	rep.Require(rep.Counter("sessions_with_repeated_id_in_flight") > 100, "repeated ids in flight")
 	rep.Require(rep.Counter("sessions_with_mixed_verdicts") > 100, "mixed verdicts")
